@@ -160,6 +160,29 @@ def laneDumpers : List String → String
     | _, _ => "bad-op"
   | _ => "bad-op"
 
+open Req.Client.Dump in
+def presetOf (n : Nat) : Option Preset :=
+  match n with
+  | 0 => some .all | 1 => some .withoutRequestBody | 2 => some .withoutResponseBody
+  | 3 => some .withoutResponse | 4 => some .withoutRequest | 5 => some .withoutHeader
+  | 6 => some .withoutBody | 7 => some .async
+  | n => if n ≥ 100 then some (.to n) else none
+
+open Req.Client.Dump in
+/-- `c13preset <default Output writer> <preset numbers>` → flags, async, Output(). -/
+def lanePreset : List String → String
+  | [out, ps] =>
+    match out.toNat?, decodeNatList ps with
+    | some w, some l =>
+      match l.mapM presetOf with
+      | some presets =>
+        let o := newDumper (applyPresets presets (defaultOpts w))
+        " ".intercalate (Part.all.map fun p => if o.enabled p then "1" else "0") ++
+          " async=" ++ (if o.async then "1" else "0") ++ " out=" ++ toString o.out
+      | none => "bad-op"
+    | _, _ => "bad-op"
+  | _ => "bad-op"
+
 def renderIO (rs : List Req.Client.Dump.IORes) : String :=
   if rs.isEmpty then "-" else ",".intercalate (rs.map fun r => toString r.n ++ ":" ++ toString r.err)
 
@@ -219,7 +242,8 @@ def lanes : List (String × (List String → String)) := [
   ("c13dumpers", laneDumpers),
   ("c13wrapw", laneWrapW),
   ("c13wrapr", laneWrapR),
-  ("c13chan", laneChan)
+  ("c13chan", laneChan),
+  ("c13preset", lanePreset)
 ]
 
 end Req.Driver.L.C13
